@@ -497,36 +497,53 @@ def emit_model(ctx, builds, judge):
             ctx.violation("emit:skeleton:diverge-expected", "EmitModel predicts a non-terminating emission; binary exited 0",
                           {"hist": c["hist"], "source": src})
     ctx.cov["emit_divergent_replayed"] = ndiv
-    # finite behaviours: batches of functions per translation unit
+    # finite behaviours: batches of functions per translation unit.  Behaviours that use a deviation (programs that
+    # violate C11 6.8.6.1p1 / 6.8.1p3) are compiled one per unit: a compiler that diagnoses them (the fix: commits
+    # bebf93d, f515711 do) fails the whole unit, and whatever is still accepted is compared and judged like the rest.
     B = 150
     units = []
     fin.sort(key=lambda c: (not c["failing"], len(c["hist"])))
-    for k in range(0, len(fin), B):
-        chunk = fin[k:k + B]
+    devc = [c for c in fin if c["dev"]]
+    good = [c for c in fin if not c["dev"]]
+    for k in range(0, len(good), B):
+        chunk = good[k:k + B]
         src = PRE + "".join(emit_render(c, "f%d" % i) for i, c in enumerate(chunk))
-        u = Unit("emit:%d" % (k // B), "emitcase", src, "x86_64-sysv", {"emitcase": True})
-        u.meta["cases"] = chunk
-        units.append(u)
+        units.append(Unit("emit:%d" % (k // B), "emitcase", src, "x86_64-sysv", {"emitcase": True, "cases": chunk}))
+    step = 1 if len(devc) <= 6000 else len(devc) // 6000 + 1
+    for k, c in enumerate(devc[::step]):
+        units.append(Unit("emitdev:%d" % k, "emitcase", PRE + emit_render(c, "f0"), "x86_64-sysv", {"emitcase": True, "cases": [c]}))
     tr = ctx.path("tr")
     os.makedirs(tr, exist_ok=True)
     vlib.pmap(lambda u: compile_unit((plain, None), u, tr), units)
-    rejected = 0
+    rejected = diagnosed = 0
+    out_units = []
     for u in units:
         chunk = u.meta["cases"]
         if u.rc != 0 or u.mod is None:
-            # some function of the batch is diagnosed (after a fix: the deviation cases) - replay one by one
-            for i, c in enumerate(chunk):
+            if len(chunk) == 1:
+                for c in chunk:
+                    ctx.count("emit|" + vlib.canon(c["hist"]), nontrivial=False)
+                    if c["dev"]:
+                        diagnosed += 1
+                    else:
+                        rejected += 1
+                continue
+            for i, c in enumerate(chunk):       # a deviation-free behaviour was rejected: find out which
                 v = Unit("%s/%d" % (u.id, i), "emitcase", PRE + emit_render(c, "f0"), "x86_64-sysv", {"emitcase": True, "cases": [c]})
                 compile_unit((plain, None), v, tr)
                 if v.rc != 0:
-                    rejected += 1 if not c["dev"] else 0
+                    rejected += 1
                     ctx.count("emit|" + vlib.canon(c["hist"]), nontrivial=False)
                 else:
                     emit_compare(ctx, v, judge)
+                    out_units.append(v)
             continue
         emit_compare(ctx, u, judge)
-    if rejected > len(fin) // 10:
-        raise vlib.MachineryError("EmitModel replay is vacuous: %d of %d deviation-free behaviours were rejected" % (rejected, len(fin)))
+        out_units.append(u)
+    units = out_units
+    ctx.cov["emit_deviation_behaviours_diagnosed"] = diagnosed
+    if rejected > len(good) // 10:
+        raise vlib.MachineryError("EmitModel replay is vacuous: %d of %d deviation-free behaviours were rejected" % (rejected, len(good)))
     ctx.cov["emit_cases"] = len(cases)
     ctx.cov["emit_rejected_valid"] = rejected
     return units
@@ -551,10 +568,10 @@ def emit_compare(ctx, u, judge):
             continue
         ctx.validated(1)
         c["_func"] = "f%d" % i
-    # QbeWF judges every 4th batch (quick) / every 3rd batch (thorough, 9x more behaviours); batches are sorted with the
-    # behaviours the model calls malformed first.  The skeleton comparison above is done for all of them.
+    # QbeWF judges every deviation behaviour the compiler still accepts, and every 4th batch (quick) / every 3rd batch
+    # (thorough, 9x more behaviours) of the others.  The skeleton comparison above is done for all of them.
     bi = int(u.id.split(":")[1].split("/")[0])
-    u.meta["judged"] = (bi % 4 == 0) if ctx.quick else (bi % 3 == 0)
+    u.meta["judged"] = u.id.startswith("emitdev:") or ((bi % 4 == 0) if ctx.quick else (bi % 3 == 0))
     if u.meta["judged"]:
         judge.add(u)
 
